@@ -258,6 +258,8 @@ fn headline(rng: &mut Rng, env: &Env, sents: &[String]) -> String {
         "user@example.com", "https://example.com/a", "don't", "DON’T", "it’s", "o'clock", "rock 'n' roll", "—", "–", "…", "...",
         "(", ")", ":", ";", "?", "!", "\"", "“", "”", "'", "&", "/", "|", "#1", "@home", "a", "an", "the", "of", "in", "on",
         "into", "from", "with", "about", "between", "and", "but", "for", "or", "nor", "to", "is", "vs.", "AND", "The", "OF",
+        // constructs whose TOKENISATION depends on letter case or on neighbours (condensing passes)
+        "et al.", "Et al.", "ET AL.", "etc.", "Etc.", "Vs.", "n.s.a.", "N.S.A.", "I.E.", "1ST", "2Nd", "it'S", "O'neil", "a.b", "www.Example.com", "0X1f",
     ];
     let base = rng.pick(sents).lines().next().unwrap_or("").to_string();
     let mut words: Vec<String> = base.split(' ').map(|w| w.to_string()).collect();
@@ -387,7 +389,7 @@ pub fn run(ctx: &Ctx) {
     }
 
     // 2. exhaustive small scope: every text of ≤ 3 (quick) / ≤ 4 (thorough) pieces over a vocabulary
-    let pieces = ["the ", "OF", "iphone", "-", " ", "A ", "and", "1st", ".", "o’reilly", "É"];
+    let pieces = ["the ", "OF", "iphone", "-", " ", "A ", "and", "1st", ".", "o’reilly", "É", "et al. ", "e.g. "];
     let maxlen = if ctx.tier == Tier::Thorough { 4 } else { 3 };
     for len in 1..=maxlen {
         let total = pieces.len().pow(len as u32);
@@ -441,7 +443,7 @@ pub fn run(ctx: &Ctx) {
         }
     }
     let extra = json!({
-        "exhaustive_scope": format!("texts of ≤{} pieces over an 11-piece vocabulary", maxlen),
+        "exhaustive_scope": format!("texts of ≤{} pieces over a 13-piece vocabulary", maxlen),
         "dictionary_words": nwords,
         "proper_nouns_in_pool": env.proper.len(),
         "proper_nouns_with_apostrophe": env.proper_apos.len(),
